@@ -72,4 +72,32 @@ static std::string join_trace(TraceSink& sink){
     return s;
 }
 
+template <class Groups, class PGroups>
+std::string dump_parts(long H, Groups&& cellGroupsAt, PGroups&& pgroups){
+    std::string s = "H=" + std::to_string(H);
+    for(long l = 0 ; l < H ; ++l){
+        s += " | L" + std::to_string(l) + ":";
+        for(const auto& g : cellGroupsAt(l)){
+            s += " [" + std::to_string(g.getStartingSpacialIndex()) + " " + std::to_string(g.getEndingSpacialIndex()) + " " + std::to_string(g.getNbCells()) + ":";
+            for(long k = 0 ; k < g.getNbCells() ; ++k) s += " " + std::to_string(g.getCellSpacialIndex(k));
+            s += "]";
+        }
+    }
+    s += " | P:";
+    for(const auto& g : pgroups){
+        s += " [" + std::to_string(g.getStartingSpacialIndex()) + " " + std::to_string(g.getEndingSpacialIndex()) + " " + std::to_string(g.getNbLeaves()) + " " + std::to_string(g.getNbParticles()) + ":";
+        for(long k = 0 ; k < g.getNbLeaves() ; ++k){
+            const auto& h = g.getLeafSymbData(k);
+            s += " (" + std::to_string(h.spaceIndex) + " " + std::to_string(h.nbParticles) + " " + std::to_string(h.offSet) + ":";
+            std::vector<long> parts(g.getParticleIndexes(k), g.getParticleIndexes(k) + h.nbParticles);
+            std::sort(parts.begin(), parts.end());
+            for(long p : parts) s += " " + std::to_string(p);
+            s += ")";
+        }
+        s += "]";
+    }
+    return s;
+}
+
+
 #endif
